@@ -257,3 +257,8 @@ Proof.
   apply andb_true_iff in H. destruct H as [H1 H2]. cbn [map List.concat]. rewrite (IH H2).
   unfold encode_rune. rewrite H1. unfold byte_of. now rewrite ascii_code.
 Qed.
+
+(* non-strict decoding: the unused low bits of a padded quantum are not checked, so decoding is not injective *)
+Lemma b64_decode_not_injective :
+  exists s1 s2, s1 <> s2 /\ strip_crlf s1 = s1 /\ strip_crlf s2 = s2 /\ b64_decode s1 = b64_decode s2 /\ b64_decode s1 = Some (B "A").
+Proof. exists (B "QQ=="), (B "QR=="). repeat split; try reflexivity. discriminate. Qed.
